@@ -5,7 +5,7 @@ MODEL_SHOW = "run"
 DISAGREE_IS_VIOLATION = True   # observables are exactly what the property fixes
 RULE = ("exhaustive: every op sequence of length <= 3 (quick) / 5 (thorough) over a 7-op alphabet "
         "(adds incl. duplicate, leaves, delete, push) followed by a push; random: 1-60 ops over <=3 channels, "
-        "<=3 fronts, <=5 ids with removals aimed at first/middle/last position. Non-trivial = some push listed "
+        "<=3 fronts, <=5 ids with removals aimed at first/middle/last position; front-end deliveries with registered-but-closed connections (Push fails) anywhere in the id list. Non-trivial = some push listed "
         "at least one id, or a front-end delivery had live ids; distinct = distinct op sequences.")
 TRUSTED_BASE = [
     "Coq 8.16.1 kernel + vm_compute (case evaluation, Example); no native_compute",
